@@ -200,12 +200,13 @@ def gen_options(rng, world, target):
     return o
 
 
-def gen_rec_plan(rng, tier, small=False):
+def gen_rec_plan(rng, tier, small=False, extra_k=None):
     k = dict(ncomp=(2, 4) if small else (2, 5), forms=spec.FORMS_BASIC + ['neglist', 'tuple'], temps=False, groups=0.7,
              promote=0.5, auto_ivc=0.3, cycle=rng.choice([0.0, 1.0, 1.0]), nl=['nlbgs', 'nlbgs', 'newton', 'nlbj'],
              ln=['direct', 'direct_csc', 'lnbgs'], root_ln=['direct', 'direct_csc', 'runonce'],
              scaling=rng.choice([0.0, 0.0, 0.3]), quad=rng.choice([0.0, 0.3]), imp=rng.choice([0.0, 0.2]),
              shapes=[[1], [2], [3], [2, 2]])
+    k.update(extra_k or {})
     world = spec.gen_world(rng, k)
     for d in world['dvs']:
         d['lower'], d['upper'] = -3.0, 3.0
@@ -270,6 +271,12 @@ def gen_rec_plan(rng, tier, small=False):
         if rng.random() < 0.2 and nf < 2:
             ops += gen_faults(rng, world, 1, methods=['compute', 'solve_nonlinear'])
             nf += 1
+        if j > 0 and rng.random() < 0.2:
+            # the user changes the recording options of an attached driver / problem between two runs
+            cand = [t for t in ('driver', 'problem') if t in opts]
+            if cand:
+                t = rng.choice(cand)
+                ops.append({'op': 'rec_options', 'target': t, 'options': gen_options(rng, world, t)})
         r = rng.random()
         if r < 0.4:
             ops.append({'op': 'run_model', 'prefix': tag})
@@ -297,6 +304,7 @@ class RecRun:
         self.files = {}
         self.raised = []
         self.fired = []
+        self.options_now = {}       # target -> recording options in force (after rec_options ops)
 
     def _driver(self):
         d = self.plan['driver']
@@ -385,6 +393,14 @@ class RecRun:
               elif kind == 'record':
                   self.p.final_setup()
                   self.p.record(op['name'])
+              elif kind == 'rec_options':
+                  obj = self._target(op['target'])
+                  cur = self.options_now.setdefault(op['target'], dict(self.plan['options'].get(op['target'], {})))
+                  for k, v in op['options'].items():
+                      if k == 'record_derivatives':
+                          continue
+                      obj.recording_options[k] = v
+                      cur[k] = v
               else:
                   raise ValueError(kind)
         except AnalysisError as e:
@@ -407,6 +423,9 @@ class RecRun:
         elif kind == 'set_val':
             self.converged = False
         for e in self.shadow.events[ev_before:]:
+            tgt_ = 'problem' if e['kind'] == 'problem' else ('driver' if e['kind'] == 'driver' else None)
+            if tgt_ in self.options_now:
+                e['options'] = dict(self.options_now[tgt_])
             e['op_faulted'] = bool(fired) or err is not None
             e['at_converged'] = (getattr(self, 'converged', False) if e['kind'] == 'problem'
                                  else (err is None and not fired))
